@@ -87,6 +87,22 @@ unit put::Writer::poll_flush
   world mut
   ret r
   props C02 C03 C12 C13 C14 C20
+
+unit put::Writer::poll_close
+  file put.rs
+  flavours default linkto
+  at impl:AsyncWrite for Writer/poll_close
+  world mut
+  ret r
+  props C12 C15 C20
+
+unit put::Writer::poll_shutdown
+  file put.rs
+  flavours tokio
+  at impl:AsyncWrite for Writer/poll_shutdown
+  world mut
+  ret r
+  props C12 C15 C20
 ''')
 open(os.path.join(HERE, 'put_async.vc'), 'w').write('\n\n'.join(out) + '\n')
 print('wrote put_async.vc')
